@@ -1,4 +1,5 @@
 import Ruint.Lemmas.Add
+import Ruint.Lemmas.GenUint
 
 /-!
 # C01 — addition, subtraction and negation are exact in the ring mod 2^BITS
@@ -226,6 +227,30 @@ theorem gen_borrowing_sub_spec (a b : ℕ) (c : Bool) (ha : a < W) (hb : b < W) 
     (Ruint.Gen.borrowing_sub a b c).1 + b + c.toNat
       = a + W * (Ruint.Gen.borrowing_sub a b c).2.toNat
     ∧ (Ruint.Gen.borrowing_sub a b c).1 < W := borrowingSub_spec a b c ha hb
+
+/-! ## Whole-function tie to the source (G)
+
+`Ruint.Gen.uint_overflowing_add` / `uint_overflowing_sub` / `uint_masked` are regenerated from `src/add.rs` and
+`src/lib.rs` by `tools/rs2lean.py` on every run — the complete methods: the `BITS == 0` early return, the
+`while i < LIMBS` limb loop (a step function iterated by `Rs.loop`), the flag `carry | limbs[LIMBS-1] > MASK` and the
+final `masked()`. On well-formed operands (`LIMBS = nlimbs BITS` words each) the models the theorems of this file are
+about EQUAL the generated functions, so `overflowing_add_spec`, `overflowing_sub_spec` and everything derived from them
+(checked/saturating/wrapping forms, neg, abs_diff, Sum) are statements about what the source says now. -/
+
+theorem gen_masked_eq (bits : ℕ) (hb : 0 < bits) (hN : nlimbs bits < 2 ^ 64) (l : List ℕ)
+    (hl : l.length = nlimbs bits) (hw : AllLt l) :
+    Ruint.Gen.uint_masked bits (nlimbs bits) l = maskTop bits l :=
+  Ruint.GenUint.masked_eq bits hb hN l hl hw
+
+theorem gen_overflowing_add_eq (bits : ℕ) (hN : nlimbs bits < 2 ^ 64) (a b : List ℕ)
+    (ha : Canon bits a) (hb : Canon bits b) :
+    Ruint.Gen.uint_overflowing_add (nlimbs bits + 1) bits (nlimbs bits) a b = overflowingAdd bits a b :=
+  Ruint.GenUint.overflowing_add_eq bits hN a b ha.1 hb.1 ha.2.1 hb.2.1
+
+theorem gen_overflowing_sub_eq (bits : ℕ) (hN : nlimbs bits < 2 ^ 64) (a b : List ℕ)
+    (ha : Canon bits a) (hb : Canon bits b) :
+    Ruint.Gen.uint_overflowing_sub (nlimbs bits + 1) bits (nlimbs bits) a b = overflowingSub bits a b :=
+  Ruint.GenUint.overflowing_sub_eq bits hN a b ha.1 hb.1 ha.2.1 hb.2.1
 
 /-! Non-vacuity: concrete non-trivial instances (a carry chain through an all-ones limb into the
 masked top limb of a 65-bit value), evaluated by the kernel. -/
